@@ -124,6 +124,9 @@ def forms_case(fa, cid, g, ir, rnd):
         return c
     datum = g.datum(ir, hints=False)
     c["datum"] = proj.pv(datum)
+    mono = {}
+    fa.parse_schema(raw, mono)
+    c["dict_mono"] = [proj.cps(k) for k in mono]
     seed = rnd.randint(0, 2 ** 31)
     named = [n for n in g.defs if n != ir.get("full")]
     split = set(rnd.sample(named, rnd.randint(1, len(named)))) if named else set()
@@ -137,6 +140,7 @@ def forms_case(fa, cid, g, ir, rnd):
                 fa.parse_schema(pc, shared)
             piecewise = fa.parse_schema(top, shared)
             forms.append(("piecewise", piecewise))
+            c["dict_after"] = [proj.cps(k) for k in shared]
         except Exception as e:  # noqa: BLE001 - the pieces are valid by construction (TLC re-checks via the monolithic schema)
             c["piecewise_error"] = proj.cps(repr(e)[:200])
     for name, sch in forms:
